@@ -310,6 +310,77 @@ def worker(job):
     return res
 
 
+OID = (1, 3, 6, 1, 2, 1, 1, 5, 0)
+DISC_VARIANTS = ["foreign_engine+msgid", "foreign_engine+user", "own_engine+msgid", "foreign_engine+msgid x2", "foreign_response+rid"]
+
+
+def disc_worker(job):
+    """Discovery phase (v3 session without engine id): non-matching datagrams arriving before the genuine Report are
+    skipped - the later genuine Report still completes discovery, and requests are then answered by *the agent*."""
+    import gufo.snmp  # noqa: F401
+    cfg = rigp.Cfg.from_json(job["cfg"])
+    rng = random.Random(job["seed"])
+    res = {"cases": 0, "bad": [], "inconclusive": [], "classes": {}}
+    agent = rigp.Agent(None, users=[cfg.user_keys()], rng=random.Random(job["seed"])).start()
+    st = {}
+
+    def handler(a, req):
+        if not (req.ok and req.version == 3):
+            return None
+        if req.m["usm"]["engine_id"] == b"":
+            out = []
+            var = st["variant"]
+            fe = bytes([0x80, 0, 0xC0, 0xDE]) + bytes(rng.randrange(256) for _ in range(rng.choice([1, 4, 8, 13])))
+            mid = (req.m["msg_id"] + rng.choice([1, -1, 9])) & 0x7FFFFFFF
+            if var.startswith("foreign_engine+msgid"):
+                for _ in range(2 if var.endswith("x2") else 1):
+                    out.append(a.report(req, rigp.REPORT_UNKNOWN_ENGINE, flags=0, mac="empty", encrypt=False, engine_id=fe, msg_id=mid, boots=77, time=7))
+            elif var == "foreign_engine+user":
+                out.append(a.report(req, rigp.REPORT_UNKNOWN_ENGINE, flags=0, mac="empty", encrypt=False, engine_id=fe, user=b"someone-else", boots=77, time=7))
+            elif var == "own_engine+msgid":
+                out.append(a.report(req, rigp.REPORT_UNKNOWN_ENGINE, flags=0, mac="empty", encrypt=False, msg_id=mid))
+            elif var == "foreign_response+rid":
+                out.append(a.reply(req, [B.enc_varbind((1, 3, 9), B.enc_int(666))], flags=0, mac="empty", encrypt=False, engine_id=fe,
+                                   request_id=(req.request_id + 5) & 0x7FFFFFFF, boots=77, time=7))
+            st["strays"] = st.get("strays", 0) + len(out)
+            out.append(a.report(req, rigp.REPORT_UNKNOWN_ENGINE, flags=0, mac="empty", encrypt=False))
+            return out
+        return a.discovery_or(req, lambda q: a.reply(q, [B.enc_varbind(OID, B.enc_int(st["serial"]))]))
+    agent.handler = handler
+    serial = 5000
+    for i in range(job["n"]):
+        var = DISC_VARIANTS[i % len(DISC_VARIANTS)]
+        verdicts = []
+        for attempt, tmo in enumerate((0.4, 1.5, 1.5)):
+            serial += 1
+            st.update(variant=var, serial=serial, strays=0)
+            drv = driver.Driver(cfg, agent, timeout=tmo).create()
+            o1 = drv.call("open")
+            o2 = drv.call("get", B.oid_text(OID))
+            eng = None
+            try:
+                eng = agent.reqs[-1].m["usm"]["engine_id"] if agent.reqs and agent.reqs[-1].ok else None
+            except Exception:
+                pass
+            drv.close()
+            agent.wait_idle()
+            good = o1[0] == "ok" and o2 == ("ok", serial)
+            verdicts.append((repr(o1)[:80], repr(o2)[:80], eng.hex() if eng is not None else None))
+            if good:
+                break
+        res["cases"] += 1
+        res["classes"]["disc:" + var] = 1
+        if len(verdicts) == 3:
+            if len(res["bad"]) < 20:
+                res["bad"].append({"cfgkey": cfg.key(), "variant": var, "msg": "discovery with %s arriving before the genuine Report: the session did not "
+                                   "come up / did not get the agent's answer, 3 times out of 3 (open, get, engine id of the last request): %s; agent engine id %s"
+                                   % (var, verdicts, agent.engine_id.hex())})
+        elif len(verdicts) > 1:
+            res["inconclusive"].append("%s discovery %s: first attempt failed (%s), a repeat with 1.5 s timeout passed" % (cfg.key(), var, verdicts[0]))
+    agent.stop()
+    return res
+
+
 def gen_scripts(cfg, tier, rng):
     ks = kinds_for(cfg)
     ops = ["get", "get_many", "getnext1", "getbulk1"]
@@ -393,6 +464,30 @@ def main():
             chk.violation("%s:%s:%s" % (b["model"][0], b["model"][2], b["cfgkey"].split("/")[0]),
                           "[%s %s] script %s: %s" % (b["cfgkey"], b["op"], b["plan"], b["msg"]), b)
     chk.seen(st["requests"])
+    # discovery phase
+    dcfgs = [rigp.Cfg("v3", client=cl, auth=au, priv=pr, empty_engine=ee) for cl in ("sync", "async")
+             for au, pr, ee in ((None, None, False), ("md5", None, True), ("sha1", "aes", False))]
+    dj = [{"seed": a.seed * 31 + i, "cfg": c.to_json(), "n": len(DISC_VARIANTS) * (2 if a.tier == "quick" else 20)} for i, c in enumerate(dcfgs)]
+    outs = runner.run_workers("checks.c04", "disc_worker", dj, variant="rel", timeout=3000)
+    st["discovery_cases"] = 0
+    for o in outs:
+        res = o["result"]
+        if res is None:
+            if o["rc"] == "timeout":
+                chk.inconc("discovery worker timeout")
+            else:
+                chk.violation("abort:rigp", "discovery worker died rc=%s: %s" % (o["rc"], o["stderr"][-300:]), {})
+            continue
+        if "harness_error" in res:
+            raise runner.HarnessError(res["harness_error"])
+        for x in res["inconclusive"][:3]:
+            chk.inconc(x)
+        st["discovery_cases"] += res["cases"]
+        for c in res["classes"]:
+            chk.distinct.add(c)
+        for b in res["bad"]:
+            chk.violation("discovery:%s" % b["variant"], "[%s] %s" % (b["cfgkey"], b["msg"]), b)
+    chk.seen(st["discovery_cases"])
     chk.extra.update(st)
     chk.extra["exhaustive"] = True
     chk.floor("scripts", st["scripts"], 3000)
